@@ -698,7 +698,34 @@ func TestVerifE2E(t *testing.T) {
 	logtxt := lb.String()
 	enc.Encode(map[string]interface{}{"ev": "e2e-end", "bus": calls,
 		"clears": strings.Count(logtxt, "clearing motion buffer"), "badframes": strings.Count(logtxt, "bad frame detec"),
-		"ended": strings.Count(logtxt, "camera connection ended with"), "logtail": tailStr(logtxt, 1500+len(os.Getenv("VERIF_FULLLOG"))*100000)})
+		"ended": strings.Count(logtxt, "camera connection ended with"), "lifecycle": veLifecycle(logtxt), "logtail": tailStr(logtxt, 1500+len(os.Getenv("VERIF_FULLLOG"))*100000)})
+}
+
+// veLifecycle: the daemon's own lifecycle lines, in the order it printed them (trace for LifecycleTrace.tla).
+func veLifecycle(logtxt string) []string {
+	out := []string{}
+	for _, ln := range strings.Split(logtxt, "\n") {
+		switch {
+		case strings.Contains(ln, "waiting for camera connection"):
+			out = append(out, "listen")
+		case strings.Contains(ln, "connection from ") && strings.HasSuffix(ln, "fps)"):
+			if i := strings.LastIndex(ln, "@"); i >= 0 {
+				out = append(out, "header:"+strings.TrimSuffix(ln[i+1:], "fps)"))
+			}
+		case strings.Contains(ln, "reading frames"):
+			out = append(out, "reading")
+		case strings.Contains(ln, "clearing motion buffer"):
+			out = append(out, "clear")
+		case strings.HasSuffix(ln, " frames for this connection"):
+			f := strings.Fields(strings.TrimSuffix(ln, " frames for this connection"))
+			if len(f) > 0 {
+				out = append(out, "count:"+f[len(f)-1])
+			}
+		case strings.Contains(ln, "camera connection ended with"):
+			out = append(out, "end")
+		}
+	}
+	return out
 }
 
 // veDrain waits until the peer has consumed everything written to the unix
